@@ -17,8 +17,8 @@ import (
 
 	"github.com/benbjohnson/litestream"
 	"github.com/benbjohnson/litestream/file"
-	"github.com/superfly/ltx"
 	"github.com/benbjohnson/litestream/verifhook"
+	"github.com/superfly/ltx"
 )
 
 // C12 — concurrent daemon operations are race-free, deadlock-free and keep C01/C02.
@@ -355,6 +355,7 @@ func runC12Bubble(e *Env, p *Program, res *Result) {
 	sch.MaxSteps = 600
 	sch.Sticky = int(p.Params["sticky"])
 	sch.Holds = p.Holds
+	sch.TraceBlocked = os.Getenv("VERIF_TRACE_BLOCKED") != ""
 	if ms := int(p.Params["max_steps"]); ms > 0 {
 		sch.MaxSteps = ms
 	}
@@ -433,6 +434,9 @@ func runC12Bubble(e *Env, p *Program, res *Result) {
 	res.Ops = sch.Steps
 	res.Probes["sched_steps"] = sch.Steps
 	res.Probes["holds_hit"] = sch.HoldsHit
+	if sch.SlowSettles > 0 {
+		res.Probes["slow_settles"] = sch.SlowSettles
+	}
 	res.Probes["tasks"] = nt + 1
 	switches := 0
 	prev := ""
